@@ -452,6 +452,14 @@ func mapDocs(bothSentinels, allowAbsent bool) []MapDoc {
 				out = append(out, MapDoc{Ents: e, Form: f, Sent: s})
 			}
 		}
+		// lines that are no entries between the entries (main + data + library, and library first)
+		for _, e := range []int{2, 3} {
+			for f := 0; f < 5; f++ {
+				for g := 1; g <= 3; g++ {
+					out = append(out, MapDoc{Ents: e, Form: f, Sent: s, Gap: g})
+				}
+			}
+		}
 	}
 	return out
 }
